@@ -1,3 +1,16 @@
+/-
+  Bnum.Lemmas.Cast — lemmas for C09 (casts) and C13 (checked conversions).
+  Layers: Outcome/array-loop algebra (`forN_succ_last`, `forN_write`, `forN_conj`); digit lists as
+  positional numerals (`U_take`, `dig`, `U_map_dig`, `dig_U`, `dig_split`, `split_at`);
+  same-digit casts (`castUp_eq`, `castDown_eq`, `UI.castFromU_spec`, `UI.castFromI_spec`);
+  cross-digit casts (`splitLoop_eq`, `packLoop_eq`, `packLoopNeg_conj`, `UI.castFromUD_*_spec`,
+  `UI.castFromID_*_spec`, `castBnum_spec`); primitive casts (`asmOrLoop_spec`, `asmAndNotLoop_conj`,
+  `UI.castToPrim_eq`, `II.castToPrim_eq`, `asBuintLoop_*`, `UI.castFromPrim_spec`);
+  conversions (`ConvOk`, `ConvOkP`, `FromOk`, `btryFrom_spec`, `UI.fromUint_spec`,
+  `II.fromInt_spec`, `II.fromUint_partial`, `UI.tryFromIint_spec`, `tryToPrim_spec`).
+  The and-not loops used for negative sources are reduced to the or loops by De Morgan
+  conjugation (`not_and_not`, `forN_conj`).
+-/
 import Bnum.Model.Convert
 import Bnum.Lemmas.AddSub2
 import Bnum.Lemmas.Bits
